@@ -110,6 +110,12 @@ class Check:
 
     # ---- finish ------------------------------------------------------------
     def finish(self, level="model_checking", rule="", extra=None):
+        from harness import par
+        if par.LOST:
+            lost = sum(par.LOST)
+            if not self.divergences:
+                raise Machinery("%d replay chunk(s) lost to dying worker processes and no divergence observed: no verdict" % lost)
+            self.notes["replay_chunks_lost_to_dying_workers"] = lost
         violations = 0
         os.makedirs(EVID, exist_ok=True)
         known_seen = []
